@@ -26,7 +26,9 @@ RULE = (
     "whose cell values encode (variable, row, column), float64/float32/int64 data with optional NaN holes, default or custom dims, "
     "1-D axis vectors or 2-D meshgrids (C/F order, read-only), Dataset / named / unnamed DataArray inputs with coordinates declared in either "
     "order; plus clear non-meshgrids (deviation >= 10 % of the node spacing, transposed or ij-indexed arrays), wrong name counts, and nested uses "
-    "through BaseGridder.grid and project_grid; equivalent spellings (axis vectors as float / int64 arrays or Python lists, names as bare string, "
+    "through BaseGridder.grid and project_grid; make_xarray_grid called with dims / extra_coords_names by keyword, POSITIONALLY (4th / 5th "
+    "argument, default and custom dims, with and without extra coordinates) and all-keyword, each grid also compared with what the workload "
+    "asked for; equivalent spellings (axis vectors as float / int64 arrays or Python lists, names as bare string, "
     "list, tuple of 1..4, DataArray names 0 and \"\", extra coordinates / variables that are exactly zero, one bare string offered for several "
     "variables); plus call histories: consecutive calls on twin inputs (same sizes, same first and last axis "
     "values, same shapes and names; other interior nodes - uniform then non-uniform, non-uniform then another non-uniform, mirrored - and other "
@@ -52,6 +54,10 @@ _QUICK_FLOORS = {
     "class:make_n_vars=4": 140, "class:shape_1xn": 250, "class:shape_nx1": 250, "class:shape_non_square": 2000,
     "class:table_dataset": 1400, "class:table_dataarray_named": 250, "class:table_dataarray_unnamed": 60,
     "class:table_coords_declared_northing_first": 300, "class:table_coords_declared_easting_first": 300,
+    # call forms of make_xarray_grid (dims / extra_coords_names positionally)
+    "eval:make_grid_as_intended": 1000, "class:make_call_positional_dims_custom_dims": 80,
+    "class:make_call_positional_dims_and_extra_coords_names_custom_dims": 150, "class:make_call_positional_with_extra_coordinates": 200,
+    "class:make_call_positional_without_extra_coordinates": 150, "class:make_call_all_keywords": 140,
     # equivalent spellings
     "spelling:make_axis=list": 75, "spelling:make_axis=ndarray_int64": 130, "spelling:make_data_names=tuple_of_1": 120,
     "spelling:make_data_names=str_of_1": 85, "spelling:make_extra_coords_names=tuple_of_2": 100, "spelling:make_extra_coords_names=str_of_1": 100,
@@ -773,12 +779,79 @@ def run_case(run, tap, stream, index, rng):
             _stream_twin(run, rng, vu, xr)
 
 
+def call_make(run, rng, vu, cfg, coords, data, names, kwargs):
+    """
+    make_xarray_grid(coordinates, data, data_names, dims, extra_coords_names) in one of its call forms: optional arguments by
+    keyword, dims / extra_coords_names POSITIONALLY (4th / 5th argument, in the documented order), or everything by keyword.
+    """
+    custom = tuple(cfg["dims"]) != ("northing", "easting")
+    roll = rng.random()
+    if roll < 0.4:
+        args = [coords, data, names, kwargs.get("dims", tuple(cfg["dims"]))]
+        label = "positional_dims"
+        if "extra_coords_names" in kwargs and rng.random() < 0.8:
+            args.append(kwargs["extra_coords_names"])
+            label = "positional_dims_and_extra_coords_names"
+            rest = {}
+        else:
+            rest = {k: v for k, v in kwargs.items() if k == "extra_coords_names"}
+        run.count("class:make_call_%s%s" % (label, "_custom_dims" if custom else "_default_dims"))
+        if label.endswith("names") and cfg["extras"]:
+            run.count("class:make_call_positional_with_extra_coordinates")
+        elif not cfg["extras"]:
+            run.count("class:make_call_positional_without_extra_coordinates")
+        return vu.make_xarray_grid(*args, **rest)
+    if roll < 0.55:
+        run.count("class:make_call_all_keywords")
+        return vu.make_xarray_grid(coordinates=coords, data=data, data_names=names, **kwargs)
+    run.count("class:make_call_optional_by_keyword")
+    return vu.make_xarray_grid(coords, data, names, **kwargs)
+
+
+def check_intent(run, cfg, grid, kwargs, with_data=True):
+    """
+    The grid against what the WORKLOAD asked for (not against the arguments as the function bound them): requested dimension /
+    index-coordinate names, extra-coordinate names, variables, every value at its cell.
+    """
+    d0, d1 = cfg["dims"]
+    problem = None
+    run.evaluated("make_grid_as_intended")
+    if d0 not in grid.coords or d1 not in grid.coords:
+        problem = "index coordinates %r, requested dims %r" % ([str(c) for c in grid.coords], [d0, d1])
+    elif tuple(grid.coords[d0].dims) != (d0,) or tuple(grid.coords[d1].dims) != (d1,):
+        problem = "index coordinates do not span the requested dims %r" % ([d0, d1],)
+    elif not same(grid.coords[d0].values, cfg["n_vec"]) or not same(grid.coords[d1].values, cfg["e_vec"]):
+        problem = "coordinate %r / %r is not the northing / easting vector given" % (d0, d1)
+    else:
+        got_extra = sorted(str(c) for c in grid.coords if c not in (d0, d1))
+        if got_extra != sorted(cfg["extra_names"]):
+            problem = "extra coordinates %r, requested %r" % (got_extra, cfg["extra_names"])
+        else:
+            for name, arr in zip(cfg["extra_names"], cfg["extras"]):
+                if tuple(grid.coords[name].dims) != (d0, d1) or not same(grid.coords[name].values, arr):
+                    problem = "extra coordinate %r is not in place on dims %r" % (name, (d0, d1))
+        if problem is None and with_data:
+            if [str(v) for v in grid.data_vars] != list(cfg["var_names"]):
+                problem = "variables %r, requested %r" % (list(grid.data_vars), cfg["var_names"])
+            else:
+                for name, arr in zip(cfg["var_names"], cfg["datas"]):
+                    if tuple(grid[name].dims) != (d0, d1) or not same(grid[name].values, arr):
+                        problem = "variable %r is not in place on dims %r" % (name, (d0, d1))
+        elif problem is None and len(grid.data_vars):
+            problem = "data=None produced variables %r" % (list(grid.data_vars),)
+    if problem:
+        run.violation("make_grid_as_intended", problem,
+                      {"config": {k: v for k, v in cfg.items() if k not in ("datas", "extras")}, "optional_arguments": kwargs, "grid": grid},
+                      key="intent:" + problem.split(" ")[0])
+
+
 def _stream_make(run, rng, vu):
     """arrays -> grid -> table returns the raveled inputs (the monitors judge both conversions on the way)."""
     for _ in range(PER_CASE):
         cfg = gen_grid_inputs(rng)
         coords, data, names, kwargs = make_arguments(cfg, rng)
-        grid = vu.make_xarray_grid(coords, data, names, **kwargs)
+        grid = call_make(run, rng, vu, cfg, coords, data, names, kwargs)
+        check_intent(run, cfg, grid, kwargs)
         table = vu.grid_to_table(grid)
         run.evaluated("roundtrip_arrays_grid_table")
         nn, ne = cfg["shape"]
@@ -804,7 +877,8 @@ def _stream_make(run, rng, vu):
                            "extras": cfg["extras"], "table": table, "kwargs": kwargs}, key="roundtrip:" + problem.split(" ")[0])
         if rng.random() < 0.25:
             # data=None builds a coordinates-only grid
-            only = vu.make_xarray_grid(coords, None, None, **kwargs)
+            only = call_make(run, rng, vu, cfg, coords, None, None, kwargs)
+            check_intent(run, cfg, only, kwargs, with_data=False)
             run.count("class:make_data_none")
             del only
     run.sample("make_xarray_grid", {"shape": cfg["shape"], "two_d_coordinates": cfg["two_d"], "dims": cfg["dims"], "easting": cfg["e_vec"],
